@@ -21,14 +21,15 @@ import (
 	"github.com/hashicorp/consul/agent/consul/fsm"
 	"github.com/hashicorp/consul/agent/consul/state"
 	"github.com/hashicorp/consul/agent/structs"
+	"github.com/hashicorp/consul/agent/token"
 	"github.com/hashicorp/consul/internal/verifharness/hx"
 )
 
 // Real time is used (the code calls time.Now() directly). A case lives on its own time line that
-// starts at t0; one "unit" is 80 ms = 8 model ticks. Operations run in the middle of a unit (tick
-// 8v+4, checked by bracketing the call with two clock readings, window +-16 ms), token expiries sit on
+// starts at t0; one "unit" is 80 ms (more on repeated attempts, see unitFor) = 8 model ticks. Operations run in the middle of a unit (tick
+// 8v+4, checked by bracketing the call with two clock readings, window +- unit/5), token expiries sit on
 // unit boundaries (tick 8e) and the cache TTL is k units and a half (tick 8k+4), so every comparison
-// the code makes (ExpirationTime.Before(now), Age() <= TTL) has a margin of >= 24 ms on either side.
+// the code makes (ExpirationTime.Before(now), Age() <= TTL) has a margin of >= 0.3 unit (24 ms at the base unit) on either side.
 // A case whose timing bracket fails is re-run from scratch.
 //
 // Three kinds of resolver:
@@ -40,8 +41,7 @@ import (
 //   raft    the same with a real single-voter in-memory Raft: ACL.TokenRead, ACL.TokenList and the
 //           token reaper run unmodified
 const (
-	unit     = 80 * time.Millisecond
-	window   = 16 * time.Millisecond
+	baseUnit = 80 * time.Millisecond
 	baseTick = 1000
 )
 
@@ -55,7 +55,19 @@ const (
 
 var accOf = map[string]string{"s1": "aaaaaaaa-0000-0000-0000-000000000001", "s2": "aaaaaaaa-0000-0000-0000-000000000002",
 	"s3": "aaaaaaaa-0000-0000-0000-000000000003", "s4": "aaaaaaaa-0000-0000-0000-000000000004",
-	anonSecret: anonAccessor, mgmtSecret: mgmtAccessor}
+	anonSecret: anonAccessor, mgmtSecret: mgmtAccessor,
+	recoverySecret: "aaaaaaaa-0000-0000-0000-0000000000e1", srvMgmtSecret: "aaaaaaaa-0000-0000-0000-0000000000e2"}
+
+// secrets with a meaning to the front of ResolveToken: the agent recovery token and the server
+// management token (when the case configures them; otherwise ordinary unknown secrets), the names of
+// the root authorizers, and the empty secret (= the anonymous token)
+const (
+	recoverySecret = "rec0"
+	srvMgmtSecret  = "srv0"
+)
+
+var specialSecrets = []string{"", "", "manage", "allow", "deny", recoverySecret, recoverySecret, srvMgmtSecret, srvMgmtSecret}
+var filtTypes = []string{"IndexedServiceList", "IndexedServiceList", "IndexedServiceNodes", "IndexedSessions", "IndexedNodeDump", "IndexedNodes"}
 
 var grantNames = []string{"web", "db", "api"}
 
@@ -73,7 +85,27 @@ func (x expT) tick() string {
 	}
 	return strconv.Itoa(baseTick + 8*x.e)
 }
-func (x expT) time(t0 time.Time) *time.Time {
+// tline: the time line of one attempt at a case: its origin and the real duration of one unit.
+// unit = baseUnit for the first attempts; an attempt whose timing bracket failed is repeated on a
+// coarser time line (the model ticks are units, so the lines do not change).
+type tline struct {
+	t0   time.Time
+	unit time.Duration
+}
+
+func (tl tline) window() time.Duration { return tl.unit / 5 }
+
+// unitFor: 80 ms for attempts 0-1, then doubling every second attempt up to 1.28 s.
+func unitFor(attempt int) time.Duration {
+	sh := attempt / 2
+	if sh > 4 {
+		sh = 4
+	}
+	return baseUnit << uint(sh)
+}
+
+func (x expT) time(tl tline) *time.Time {
+	t0, unit := tl.t0, tl.unit
 	switch x.kind {
 	case 0:
 		return nil
@@ -105,8 +137,8 @@ func grantsOfID(id string) []string {
 	}
 	return strings.Split(id, "+")
 }
-func (t xtoken) build(t0 time.Time) *structs.ACLToken {
-	tok := &structs.ACLToken{AccessorID: t.accessor, SecretID: t.secret, ExpirationTime: t.exp.time(t0)}
+func (t xtoken) build(tl tline) *structs.ACLToken {
+	tok := &structs.ACLToken{AccessorID: t.accessor, SecretID: t.secret, ExpirationTime: t.exp.time(tl)}
 	switch t.link {
 	case 1:
 		tok.Policies = []structs.ACLTokenPolicyLink{{ID: linkID("p-", t.grants)}}
@@ -143,6 +175,8 @@ type xop struct {
 	meta   bool     // res t: through ResolveTokenAndDefaultMeta
 	rounds []xround // remote mode (res: 5 rounds; mask: 1 round)
 	flag   bool
+	fty    string   // filt: the response type handed to filterACL …
+	fp     *payload // … and its content
 }
 
 type xcase struct {
@@ -150,6 +184,25 @@ type xcase struct {
 	ttlK int
 	down string
 	ops  []xop
+	// what ResolveToken consults before resolving an identity
+	envSet   bool
+	acls     bool // ACLs enabled
+	tokStore bool // the resolver has a token store …
+	recovery bool // … holding the agent recovery token recoverySecret
+	srvMgmt  bool // the backend knows srvMgmtSecret as the server management token
+}
+
+func (c *xcase) recoveryTok() string {
+	if c.recovery {
+		return recoverySecret
+	}
+	return ""
+}
+func (c *xcase) srvMgmtTok() string {
+	if c.srvMgmt {
+		return srvMgmtSecret
+	}
+	return ""
 }
 
 func (c *xcase) server() bool { return c.mode != "remote" }
@@ -161,8 +214,9 @@ type fakeBackend struct {
 	mu        sync.Mutex
 	rounds    []xround
 	linkCalls int
-	t0        time.Time
+	t0        tline
 	bad       string
+	srvMgmt   string
 }
 
 func (b *fakeBackend) ACLDatacenter() string { return "dc1" }
@@ -175,7 +229,9 @@ func (b *fakeBackend) ResolvePolicyFromID(string) (bool, *structs.ACLPolicy, err
 func (b *fakeBackend) ResolveRoleFromID(string) (bool, *structs.ACLRole, error) {
 	return false, nil, nil
 }
-func (b *fakeBackend) IsServerManagementToken(string) bool { return false }
+func (b *fakeBackend) IsServerManagementToken(tok string) bool {
+	return b.srvMgmt != "" && tok == b.srvMgmt
+}
 
 func linkErr(ans string) error {
 	switch ans {
@@ -288,7 +344,10 @@ func genRound(r *hx.RNG, t xtoken, links, linkErrors bool) xround {
 
 func genXCase(r *hx.RNG, mode string) *xcase {
 	c := &xcase{mode: mode, ttlK: hx.Pick(r, []int{0, 1, 1, 2, 100}),
-		down: hx.Pick(r, []string{"allow", "deny", "extend-cache", "extend-cache", "async-cache"})}
+		down: hx.Pick(r, []string{"allow", "deny", "extend-cache", "extend-cache", "async-cache"}), acls: true}
+	if mode != "raft" && r.Chance(30) {
+		c.envSet, c.acls, c.tokStore, c.recovery, c.srvMgmt = true, !r.Chance(20), !r.Chance(25), !r.Chance(25), !r.Chance(25)
+	}
 	// role / policy links are followed by RPC only in remote mode; their cache-assisted variants
 	// (extend-cache / async-cache reuse of expired link entries) are C08's subject: link answers are
 	// generated only where the outcome does not depend on the link caches
@@ -374,11 +433,31 @@ func genXCase(r *hx.RNG, mode string) *xcase {
 				op.secret = ""
 			}
 		}
-		if mode == "remote" && (op.kind == "res" || op.kind == "mask") {
-			t := pool[s]
+		if mode != "raft" && op.kind == "res" && op.ep == "t" {
+			if r.Chance(16) || c.envSet && c.acls && r.Chance(25) {
+				op.secret = hx.Pick(r, specialSecrets)
+				s = op.secret
+			}
+			if r.Chance(22) {
+				op.kind, op.fty = "filt", hx.Pick(r, filtTypes)
+				g := &gen{r: r, noPeer: true}
+				op.fp = g.generate(op.fty)
+				op.fp.flag = false
+			}
+		}
+		if mode == "remote" && (op.kind == "res" || op.kind == "mask" || op.kind == "filt") {
+			t, known := pool[s]
+			if s == "" && op.kind != "mask" {
+				t, known = pool[anonSecret], true
+			}
+			if !known { // a secret the primary may or may not know
+				t = xtoken{s, accOf[s], expT{kind: 0}, genGrants(r), 0}
+			}
 			if r.Chance(30) {
 				t.exp = genExp(r)
-				pool[s] = t
+				if known && s != "" {
+					pool[s] = t
+				}
 			}
 			nr := 5
 			if op.kind == "mask" {
@@ -422,9 +501,9 @@ type xenv struct {
 }
 
 // prepareX builds a fresh resolver for the case (CPU heavy: done before the timed part).
-func prepareX(c *xcase) *xenv {
+func prepareX(c *xcase, unit time.Duration) *xenv {
 	ttl := time.Duration(c.ttlK)*unit + unit/2
-	settings := consul.ACLResolverSettings{ACLsEnabled: true, Datacenter: "dc1", NodeName: "n1",
+	settings := consul.ACLResolverSettings{ACLsEnabled: c.acls, Datacenter: "dc1", NodeName: "n1",
 		ACLPolicyTTL: 30 * time.Second, ACLRoleTTL: 30 * time.Second, ACLTokenTTL: ttl,
 		ACLDownPolicy: c.down, ACLDefaultPolicy: "deny"}
 	x := &xenv{}
@@ -433,11 +512,14 @@ func prepareX(c *xcase) *xenv {
 	case "remote":
 		// links are re-fetched on every resolution: their outcome is the scripted answer alone
 		settings.ACLPolicyTTL, settings.ACLRoleTTL = 0, 0
-		x.fb = &fakeBackend{}
-		x.env, err = consul.VerifNewACLEnv(nil, x.fb, settings)
+		x.fb = &fakeBackend{srvMgmt: c.srvMgmtTok()}
+		x.env, err = consul.VerifNewACLEnvTokens(nil, x.fb, settings, c.tokenStore())
 	case "server":
 		x.f = newFSM()
-		x.env, err = consul.VerifNewACLEnv(x.f, nil, settings)
+		x.env, err = consul.VerifNewACLEnvTokens(x.f, nil, settings, c.tokenStore())
+		if err == nil && c.srvMgmt {
+			err = x.f.State().SystemMetadataSet(6, &structs.SystemMetadataEntry{Key: structs.ServerManagementTokenAccessorID, Value: srvMgmtSecret})
+		}
 	case "raft":
 		x.f = newFSM()
 		x.env, err = consul.VerifNewACLRaftEnv(x.f, settings)
@@ -449,6 +531,18 @@ func prepareX(c *xcase) *xenv {
 		panic(err)
 	}
 	return x
+}
+
+// tokenStore: the locally managed tokens of the case (nil = the resolver has no token store).
+func (c *xcase) tokenStore() *token.Store {
+	if !c.tokStore {
+		return nil
+	}
+	ts := new(token.Store)
+	if c.recovery {
+		ts.UpdateAgentRecoveryToken(recoverySecret, token.TokenSourceConfig)
+	}
+	return ts
 }
 
 func (x *xenv) close() {
@@ -473,11 +567,16 @@ func expiredBefore(t *time.Time, at time.Time) bool { return t != nil && !t.IsZe
 
 // runXCase executes one sequence on its fresh resolver along the time line starting at t0.
 // ok=false: a timing bracket failed.
-func runXCase(c *xcase, x *xenv, t0 time.Time) (res xresult) {
+func runXCase(c *xcase, x *xenv, tl tline) (res xresult) {
+	t0, unit, window := tl, tl.unit, tl.window()
 	env, f, fb := x.env, x.f, x.fb
 	emit := func(op, out string) { res.lines = append(res.lines, [2]string{op, out}) }
 	viol := func(sig, desc string) { res.viol = append(res.viol, [2]string{sig, desc}) }
 	emit(fmt.Sprintf("x-begin %s %d %s", hx.EncBool(c.server()), 8*c.ttlK+4, c.down), "ok")
+	if c.envSet {
+		emit(fmt.Sprintf("x-env %s %s %s %s", hx.EncBool(c.acls), hx.EncBool(c.tokStore), hx.EncS(c.recoveryTok()), hx.EncS(c.srvMgmtTok())), "ok")
+		res.tags = append(res.tags, fmt.Sprintf("x:env:acls=%v,tokenstore=%v,recovery=%v,srvmgmt=%v", c.acls, c.tokStore, c.recovery, c.srvMgmt))
+	}
 	if fb != nil {
 		fb.t0 = t0
 	}
@@ -518,7 +617,7 @@ func runXCase(c *xcase, x *xenv, t0 time.Time) (res xresult) {
 			res.tags = append(res.tags, "x:op:delete")
 			continue
 		}
-		target := t0.Add(time.Duration(op.unit)*unit + unit/2)
+		target := t0.t0.Add(time.Duration(op.unit)*unit + unit/2)
 		if d := time.Until(target); d > 0 {
 			time.Sleep(d)
 		}
@@ -545,13 +644,27 @@ func runXCase(c *xcase, x *xenv, t0 time.Time) (res xresult) {
 				} else {
 					r, err = env.ResolveToken(op.secret)
 				}
+				if err == nil && c.acls && (op.secret == "allow" || op.secret == "deny" || op.secret == "manage") {
+					viol("resolve:root-authorizer-name-accepted-as-token", fmt.Sprintf("ResolveToken(%q) succeeded with ACLs enabled", op.secret))
+				}
 				switch {
 				case err != nil && acl.IsErrNotFound(err):
 					out = "notfound"
+				case err != nil && errors.Is(err, acl.ErrRootDenied):
+					out = "root-denied"
 				case err != nil && acl.IsErrPermissionDenied(err):
 					out = "denied"
 				case err != nil:
 					out = "err:" + strings.ReplaceAll(err.Error(), " ", "_")
+				case r.ACLIdentity == nil:
+					out = "manage-all" // ACLs disabled: no identity, acl.ManageAll()
+					if c.acls || r.Authorizer.ACLWrite(nil) != acl.Allow {
+						viol("resolve:no-identity-result", fmt.Sprintf("ResolveToken(%q) returned no identity (ACLs enabled: %v)", op.secret, c.acls))
+					}
+				case isRecoveryIdentity(r.ACLIdentity):
+					out = "recovery"
+				case isServerIdentity(r.ACLIdentity):
+					out = "server-mgmt"
 				case r.ACLIdentity != nil && r.ACLIdentity.ID() == "primary-dc-down":
 					out = "down " + hx.EncBool(r.Authorizer.ServiceWrite("web", nil) == acl.Allow)
 				default:
@@ -604,6 +717,55 @@ func runXCase(c *xcase, x *xenv, t0 time.Time) (res xresult) {
 					viol("expiry:harness-script", fb.bad)
 				}
 				fb.mu.Unlock()
+			}
+		case "filt":
+			// filterACL end to end: resolve the token, filter the subject with what it grants
+			normalize(op.fty, op.fp)
+			before := enc(op.fty, op.fp)
+			line = fmt.Sprintf("x-filt %d %s %d%s %s %s", now, hx.EncS(op.secret), len(op.rounds), script, op.fty, before)
+			var stored *structs.ACLToken
+			if f != nil && op.secret != "" {
+				_, stored, _ = f.State().ACLTokenGetBySecret(nil, op.secret, nil)
+			}
+			var ferr error
+			fout, panicked := execWith(op.fty, op.fp, func(subj any) {
+				if e := env.FilterACL(op.secret, subj); e != nil {
+					ferr = e
+				}
+			}, nil)
+			switch {
+			case panicked:
+				out = "panic"
+				viol("filteracl:unexpected-panic", "filterACL panicked on a well-formed response")
+			case ferr != nil:
+				switch {
+				case acl.IsErrNotFound(ferr):
+					out = "err notfound"
+				case errors.Is(ferr, acl.ErrRootDenied):
+					out = "err root-denied"
+				case acl.IsErrPermissionDenied(ferr):
+					out = "err denied"
+				default:
+					out = "err:" + strings.ReplaceAll(ferr.Error(), " ", "_")
+				}
+				if after := enc(op.fty, fout); after != before {
+					viol("filteracl:subject-modified-although-resolution-failed", fmt.Sprintf("filterACL returned %v yet changed the response from %q to %q", ferr, before, after))
+				}
+			default:
+				out = "ok " + enc(op.fty, fout)
+				locallyManaged := c.tokStore && c.recovery && op.secret == recoverySecret || c.tokStore && c.srvMgmt && op.secret == srvMgmtSecret
+				if stored != nil && c.acls && !locallyManaged && expiredBefore(stored.ExpirationTime, tb) {
+					viol("filteracl:response-filtered-for-expired-token:"+mode,
+						fmt.Sprintf("token %s expired %v before the request, yet filterACL served the response %q", stored.AccessorID, tb.Sub(*stored.ExpirationTime), out))
+				}
+			}
+			res.tags = append(res.tags, "x:filt:"+mode+":"+strings.SplitN(out, " ", 2)[0], "x:filt:type:"+op.fty)
+			if ferr == nil && !panicked {
+				if enc(op.fty, fout) == before {
+					res.tags = append(res.tags, "x:filt:nothing-removed")
+				} else {
+					res.tags = append(res.tags, "x:filt:something-removed")
+				}
 			}
 		case "mask":
 			got := env.Mask(op.secret, op.flag)
@@ -692,8 +854,14 @@ func runXCase(c *xcase, x *xenv, t0 time.Time) (res xresult) {
 			line, out = fmt.Sprintf("x-reap %d %s", now, hx.EncSList(reaped)), "ok"
 			res.tags = append(res.tags, fmt.Sprintf("x:reap:deleted=%d", len(reaped)))
 		}
-		if mode == "remote" && c.down == "async-cache" && op.secret != "" {
-			env.WaitIdentityFetch(op.secret) // the background fetch stamps the cache entry: keep it inside the bracket
+		if mode == "remote" && c.down == "async-cache" {
+			// the background fetch stamps the cache entry: keep it inside the bracket
+			// (the empty secret resolves the anonymous token; mask does not resolve it at all)
+			if op.secret != "" {
+				env.WaitIdentityFetch(op.secret)
+			} else if op.kind != "mask" {
+				env.WaitIdentityFetch(anonSecret)
+			}
 		}
 		ta := time.Now()
 		if tb.Before(target.Add(-window)) || ta.After(target.Add(window)) {
@@ -707,6 +875,63 @@ func runXCase(c *xcase, x *xenv, t0 time.Time) (res xresult) {
 	}
 	res.ok = true
 	return
+}
+
+func isRecoveryIdentity(id structs.ACLIdentity) bool {
+	_, ok := id.(*structs.AgentRecoveryTokenIdentity)
+	return ok
+}
+func isServerIdentity(id structs.ACLIdentity) bool {
+	_, ok := id.(*structs.ACLServerIdentity)
+	return ok
+}
+
+// runIsExpired: ACLToken.IsExpired / HasExpirationTime directly, at and around the expiry instant
+// (one tick = one nanosecond here; tick 0 = the zero time). The resolver cases above run on the real
+// clock and can never hit the instant itself.
+func runIsExpired(run *hx.Run) {
+	base := time.Date(2031, 5, 17, 11, 0, 0, 0, time.UTC)
+	at := func(tick int) time.Time {
+		if tick == 0 {
+			return time.Time{}
+		}
+		return base.Add(time.Duration(tick) * time.Nanosecond)
+	}
+	exps := []string{"~", "0", "1", "1000", "1008", "5000"}
+	asOfs := []int{0, 1, 2, 999, 1000, 1001, 1007, 1008, 1009, 4999, 5000, 5001, 1 << 40}
+	for _, e := range exps {
+		for _, a := range asOfs {
+			tok := &structs.ACLToken{AccessorID: "x"}
+			if e != "~" {
+				n, _ := strconv.Atoi(e)
+				t := at(n)
+				if run.RNG.Bool() { // a different location / a wall clock with monotonic reading must not matter
+					t = t.In(time.FixedZone("x", 3600*5))
+				}
+				tok.ExpirationTime = &t
+			}
+			asOf := at(a)
+			has, expd := tok.HasExpirationTime(), structs.ACLIdentity(tok).IsExpired(asOf)
+			op := fmt.Sprintf("x-exp %s %d", e, a)
+			run.Line(op, hx.EncBool(has)+" "+hx.EncBool(expd))
+			want := tok.ExpirationTime != nil && !tok.ExpirationTime.IsZero() && !asOf.IsZero() && asOf.Sub(*tok.ExpirationTime) > 0
+			if expd != want {
+				violate(run, "expiry:is-expired-differs-from-strictly-after-expiration", fmt.Sprintf("expiration tick %s, asOf tick %d: IsExpired=%v", e, a, expd), []string{op})
+			}
+			// the stub served by ACL.TokenList carries the same expiration
+			if stub := tok.Stub(); (stub.ExpirationTime == nil) != (tok.ExpirationTime == nil) || stub.ExpirationTime != nil && !stub.ExpirationTime.Equal(*tok.ExpirationTime) {
+				violate(run, "expiry:stub-expiration-differs", "ACLToken.Stub() changed the expiration time", []string{op})
+			}
+			run.Tag(fmt.Sprintf("x:is-expired:has=%v,expired=%v", has, expd))
+			run.Case(op, true)
+		}
+	}
+	// identities that never expire
+	for _, id := range []structs.ACLIdentity{structs.NewAgentRecoveryTokenIdentity("n1", "s"), structs.NewACLServerIdentity("s")} {
+		if id.IsExpired(at(1 << 40)) {
+			violate(run, "expiry:locally-managed-identity-expires", fmt.Sprintf("%T reports expired", id), nil)
+		}
+	}
 }
 
 func (op *xop) rounds0link() int {
@@ -754,7 +979,7 @@ func runExpiry(run *hx.Run) {
 			go func(k, i int) {
 				defer wg.Done()
 				defer func() { <-sem }()
-				envs[k] = prepareX(cases[i])
+				envs[k] = prepareX(cases[i], unitFor(retries[i]))
 			}(k, i)
 		}
 		wg.Wait()
@@ -764,13 +989,13 @@ func runExpiry(run *hx.Run) {
 			go func(k, i int) {
 				defer wg.Done()
 				// staggered time lines: the calls of different cases do not pile up on one instant
-				results[i] = runXCase(cases[i], envs[k], t0.Add(time.Duration(k)*2500*time.Microsecond))
+				results[i] = runXCase(cases[i], envs[k], tline{t0.Add(time.Duration(k) * 2500 * time.Microsecond), unitFor(retries[i])})
 				envs[k].close()
 			}(k, i)
 		}
 		wg.Wait()
 		for _, i := range cur {
-			if !results[i].ok && retries[i] < 10 {
+			if !results[i].ok && retries[i] < 14 {
 				retries[i]++
 				todo = append(todo, i)
 			}
@@ -802,7 +1027,7 @@ func runExpiry(run *hx.Run) {
 	}
 	run.Extra["expiry_timing_retries"] = totalRetries
 	run.Extra["expiry_cases_given_up"] = gaveUp
-	if gaveUp*10 > n {
-		violate(run, "expiry:timing-unusable", fmt.Sprintf("%d of %d expiry cases could not be timed", gaveUp, n), nil)
+	if gaveUp > 0 { // not a finding about consul: the machine could not keep a 1.28 s time line 15 times in a row
+		run.Tag("x:timing:cases-given-up")
 	}
 }
